@@ -571,7 +571,7 @@ def large_population() -> bool:
     m.random = SymRandom(stream)
     for i in range(n):
         m.environment.add_agent(Agent("p%d" % i, m))
-    hav = Havoc([0, 0, 0])
+    hav = Havoc([0] * (2 * n + 8))
     with _Patch(hav):
         got = m.environment.shuffle()
     hx.reach('shuffled')
